@@ -1,6 +1,8 @@
 package middleware
 
 import (
+	"bytes"
+
 	storetypes "cosmossdk.io/store/types"
 	sdk "github.com/cosmos/cosmos-sdk/types"
 	sdkerrors "github.com/cosmos/cosmos-sdk/types/errors"
@@ -75,12 +77,19 @@ func (im IBCMiddleware) OnAcknowledgementPacket(
 	acknowledgement []byte,
 	relayer sdk.AccAddress,
 ) error {
-	if err := im.IBCModule.OnAcknowledgementPacket(ctx, packet, acknowledgement, relayer); err != nil {
-		return err
-	}
+	// decode once, before anything acts on the acknowledgement, and accept only the canonical encoding: the JSON
+	// decoder resolves an acknowledgement that carries both arms of the oneof (`result` and `error`) in map iteration
+	// order, i.e. differently from one call to the next, so the wrapped application and this middleware (and two
+	// validators) could take the same bytes for a success and for a failure
 	var ack channeltypes.Acknowledgement
 	if err := transfertypes.ModuleCdc.UnmarshalJSON(acknowledgement, &ack); err != nil {
 		return sdkerrors.ErrUnknownRequest.Wrapf("cannot unmarshal ICS-20 transfer packet acknowledgement: %v", err)
+	}
+	if !bytes.Equal(ack.Acknowledgement(), acknowledgement) {
+		return sdkerrors.ErrInvalidType.Wrap("acknowledgement did not marshal to expected bytes")
+	}
+	if err := im.IBCModule.OnAcknowledgementPacket(ctx, packet, acknowledgement, relayer); err != nil {
+		return err
 	}
 	var data transfertypes.FungibleTokenPacketData
 	if err := transfertypes.ModuleCdc.UnmarshalJSON(packet.GetData(), &data); err != nil {
